@@ -617,7 +617,8 @@ def write_evidence(prop, tier, seed, pinfo, results, facts, violations, undecide
     ev = dict(property_id=prop, tier=tier, seed=seed, level=level, coverage=cov, assumptions=assumptions,
               wall_s=round(wall, 2), violations=len(violations))
     # evidence describes /repo; a run against another tree (KV_REPO: seeded-change tests) writes elsewhere
-    evdir = os.path.join(VERIF, 'evidence') if not os.environ.get('KV_REPO') else os.path.join(tempfile.gettempdir(), 'kv_seed_evidence')
+    # ... and so does a partial run (--only / --shape): the evidence file of a property always describes a complete run of its check
+    evdir = os.path.join(VERIF, 'evidence') if not (os.environ.get('KV_REPO') or os.environ.get('KV_PARTIAL')) else os.path.join(tempfile.gettempdir(), 'kv_seed_evidence')
     os.makedirs(evdir, exist_ok=True)
     with open(os.path.join(evdir, prop + '.json'), 'w') as f:
         json.dump(ev, f, indent=1)
@@ -638,6 +639,8 @@ def main():
     a = ap.parse_args()
     if a.cmd == 'check':
         tier = a.tier if a.tier in ('quick', 'thorough') else 'quick'
+        if a.only or a.shape:
+            os.environ['KV_PARTIAL'] = '1'
         sys.exit(check_property(a.prop, tier, a.jobs, a.only, a.shape))
     elif a.cmd == 'replay':
         rep, txt = do_replay(a.file)
